@@ -1,8 +1,8 @@
 """C19 rename changes exactly the occurrences of one variable."""
 REG = dict(
     engine='E1-enum',
-    technique='bounded-exhaustive enumeration of binder programs (same name bound by let / destructuring let / parameter / closure parameter / for / match payload in nested, sibling and enclosing scopes) x every variable occurrence, rename on the real tool and LSP server, compared with an independent lexical-scope resolver and by running both programs',
-    text='Every program of a binder grammar (containers: top-level block, function with a parameter, top-level statements, each with or without a global function of the same name; statements: print, let, let using the previous binding, destructuring let, assignment, if-block, for, match payload, closure parameter, capturing closure; sequences of <=2 statements, block nesting 1 in quick and 2 in thorough, i.e. up to 3/4 nested binders of one name) is printed with distinct values per binder and a print after every statement. For every occurrence of a local or parameter: (a) rename_positions equals the occurrence set of the binder computed by py/gvlib/scopes.py; (b) the renamed program (fresh name zz9) has the same stdout/outcome as the original; (c) LSP textDocument/rename edits, applied by an independent UTF-16 text-edit applier, give the same text as the rename tool. A refusal on a local/parameter occurrence is a violation.',
+    technique='bounded-exhaustive enumeration of binder programs (same name bound by let / destructuring let / parameter / closure parameter / for / match payload / catch variable in nested, sibling and enclosing scopes) x every variable occurrence, rename on the real tool and LSP server, compared with an independent lexical-scope resolver and by running both programs',
+    text='Every program of a binder grammar (containers: top-level block, function with a parameter, top-level statements, each with or without a global function of the same name; statements: print, let, let using the previous binding, destructuring let, assignment, if-block, for, match payload, try/catch as a statement and as the value of an annotated let, closure parameter, capturing closure; sequences of <=2 statements, block nesting 1 in quick and 2 in thorough, i.e. up to 3/4 nested binders of one name) is printed with distinct values per binder and a print after every statement. For every occurrence of a local or parameter: (a) rename_positions equals the occurrence set of the binder computed by py/gvlib/scopes.py; (b) the renamed program (fresh name zz9) has the same stdout/outcome as the original; (c) LSP textDocument/rename edits, applied by an independent UTF-16 text-edit applier, give the same text as the rename tool. A refusal on a local/parameter occurrence is a violation.',
     note='ASCII programs; one-letter names; no break/continue/return (C06 owns variables outliving a block that is left early) and no read of a top-level-block binding after its block (the interpreter splices top-level blocks). Function bodies have no free local variables. Rename of functions/types/methods is only counted.',
     design_ref='DESIGN.md §6 C19',
 )
@@ -53,6 +53,11 @@ def block_stmts(bodies):
         # the first match form with both scrutinee payloads, the other two with one each
         out.append(match_stmts(b, E_CONST)[0])
         out.extend(match_stmts(b, E_USE))
+        # try/catch: the catch variable `v` shadows the outer `v` in the catch block only. As a statement (types inferred), and as the
+        # value of a `let` with a type hint (checked against the expected type); a use of the outer `v` follows in either case
+        out.append(("Try", [PV], "v", b))
+        out.append(("Try", b, "v", [PV]))
+        out.append(("Let", ("Sym", "w"), ("T", "Int", []), ("Try", [E_CONST], "v", b + [("Int", 0)])))
         # a closure literal passed to an untyped parameter and to a parameter with a function type (checked against that type)
         out.append(("Call", ("Var", "ap"), [("Lambda", [("v", None)], None, b), E_USE]))
         out.append(("Call", ("Var", "apt"), [("Lambda", [("v", None)], None, b), E_CONST]))
@@ -168,7 +173,7 @@ def build(cont, body):
 
 
 LOCAL_NAMES = {"v", "w", "x"}
-VAR_ROLES = {"def-let", "def-destructure", "def-param", "def-for", "def-match", "use", "assign"}
+VAR_ROLES = {"def-let", "def-destructure", "def-param", "def-for", "def-match", "def-catch", "use", "assign"}
 URI = "file:///verif_scratch/main.gdn"
 PATH = "/verif_scratch/main.gdn"
 
